@@ -644,6 +644,22 @@ def cmp_nifti_itk(c, r, out):
 # ----------------------------------------------------------------------------------------------- stream: flow vectors in files
 
 
+def _write_door(obj, p: str, c: dict):
+    """the three ways a user saves an Image / FlowField: write(path), to_uri(path), to_uri('file://' + path)"""
+    door = c["seed"] % 3
+    if door == 0:
+        obj.write(p, compress=c["compress"])
+    else:
+        obj.to_uri(p if door == 1 else "file://" + p, compress=c["compress"])
+
+
+def _read_door(cls, p: str, c: dict):
+    door = (c["seed"] // 3) % 3
+    if door == 0:
+        return cls.read(p)
+    return cls.from_uri(p if door == 1 else "file://" + p)
+
+
 def gen_flow(rng, tier):
     for _ in range(_n(tier, 2, 50)):
         for fmt, d, axes in itertools.product(FORMATS, DIMS, AXES):
@@ -664,7 +680,7 @@ def impl_flow(c):
     flow = _flow(c)
     with tempfile.TemporaryDirectory() as td:
         p = os.path.join(td, "flow" + c["fmt"])
-        flow.write(p, compress=c["compress"])
+        _write_door(flow, p, c)
         stored = sitk_tensor(sitk.ReadImage(p))      # what is in the file, read without deepali
     sel = (slice(None),) + tuple(c["idx"])
     return {"stored": proto.flat(stored[sel]), "dtype": str(stored.dtype)}
@@ -791,11 +807,11 @@ def check_roundtrip(c):
     with tempfile.TemporaryDirectory() as td:
         p = os.path.join(td, "image" + c["fmt"])
         try:
-            Image(data, grid).write(p, compress=c["compress"])
+            _write_door(Image(data, grid), p, c)
         except Exception as e:
             return _exc_key("roundtrip", c, "write", e)
         try:
-            back = Image.read(p)
+            back = _read_door(Image, p, c)
         except Exception as e:
             return _exc_key("roundtrip", c, "read", e)
     g2 = back.grid()
@@ -902,7 +918,7 @@ def check_flow_io(c):
     with tempfile.TemporaryDirectory() as td:
         p = os.path.join(td, "flow" + c["fmt"])
         try:
-            flow.write(p, compress=c["compress"])
+            _write_door(flow, p, c)
         except Exception as e:
             return _exc_key("flow", c, "write", e)
         try:
@@ -910,7 +926,7 @@ def check_flow_io(c):
         except Exception as e:
             return _exc_key("flow", c, "sitk-read", e)
         try:
-            back = FlowField.read(p)
+            back = _read_door(FlowField, p, c)
         except Exception as e:
             return _exc_key("flow", c, "read", e)
     fmt = c["fmt"]
